@@ -141,9 +141,12 @@ package saml
 //@ requires el: parentEl != nil
 //@ ensures[C01,C09] one: err == nil ==> result != nil && result.Tag == childTag && NSOf(result) == childNS && ChildOf(result, parentEl)
 
+//@ ghost func ChildLookup(parent *etree.Element, ns string, tag string, found *etree.Element, err error) bool
 //@ contract findChild
 //@ requires el: parentEl != nil
 //@ ensures[C01] one: err == nil && result != nil ==> result.Tag == childTag && NSOf(result) == childNS && ChildOf(result, parentEl)
+//@ ensures[C01,C03] nil_on_error: err != nil ==> result == nil
+//@ records lookup: ChildLookup(parentEl, childNS, childTag, result, err)
 
 //@ contract parseCert
 //@ ensures[C09] nonnil: err == nil ==> result != nil
@@ -197,15 +200,12 @@ package saml
 //@    |- CtxTrusted(sp, el, ctx)
 //@ ensures[C01,C18] sigok: err == nil && sp.SignatureVerifier == nil ==> SigOK(sp, el)
 //@ -- the "no Signature element" sentinel (on which parseResponse bases "the Response is unsigned, so Destination may be
-//@ -- absent") is returned only by the branch that found no Signature child: every other failure is a different error
-//@ assert@return[C01,C03] #3 (e error) sentinel_only_for_absent_signature_3: e != errSignatureElementNotPresent
-//@ assert@return[C01,C03] #4 (e error) sentinel_only_for_absent_signature_4: e != errSignatureElementNotPresent
-//@ assert@return[C01,C03] #5 (e error) sentinel_only_for_absent_signature_5: e != errSignatureElementNotPresent
-//@ assert@return[C01,C03] #6 (e error) sentinel_only_for_absent_signature_6: e != errSignatureElementNotPresent
-//@ assert@return[C01,C03] #7 (e error) sentinel_only_for_absent_signature_7: e != errSignatureElementNotPresent
-//@ assert@return[C01,C03] #8 (e error) sentinel_only_for_absent_signature_8: e != errSignatureElementNotPresent
-//@ assert@return[C01,C03] #9 (e error) sentinel_only_for_absent_signature_9: e != errSignatureElementNotPresent
-//@ assert@return[C01,C03] #11 (e error) sentinel_only_for_absent_signature_11: e != errSignatureElementNotPresent
+//@ -- absent") is returned only when the lookup of the Signature child came back empty (or itself failed with that
+//@ -- very error): every other failure is a different error. Stated as a postcondition, checked at every return site,
+//@ -- wherever a refactoring puts them (a custom SignatureVerifier may return what it likes).
+//@ ensures[C01,C03] sentinel_only_for_absent_signature: err == errSignatureElementNotPresent ==>
+//@    sp.SignatureVerifier != nil || ChildLookup(el, "http://www.w3.org/2000/09/xmldsig#", "Signature", nil, nil) ||
+//@    ChildLookup(el, "http://www.w3.org/2000/09/xmldsig#", "Signature", nil, err)
 
 //@ contract unmarshalElement
 //@ trusted
